@@ -373,4 +373,45 @@ example : exSplit.flags = Gen.flagsQrQuery ∧
 
 end split
 
+/-! ## Tie: the questions of a browser query / a lookup query, generated over the *translated* history
+
+`serviceQuestionsG` / `serviceQueryG` / `requestQueryG` (`GenFacts/FnHistoryRun.lean`) are `generate_service_query`'s loop and
+`_generate_request_query` with the generated `QuestionHistory` and the translated `suppresses` / `add_question_at_time`.  The twins
+below restate `C13_service_query` and `C13_request_query` for them, on any generated history `s` that holds a model history `h` (`Sim`).
+The query generators themselves (the loop over the types, the four lookup questions, the known-answer selection) remain hand-written
+models; the history they consult and update is the translated code. -/
+section Tie
+open Zc.Py Zc.GenFn.History Zc.GenFacts.FnHistory Zc.GenFacts.FnHistoryRun
+
+theorem C13_service_query_source {s : QuestionHistory} {h : History} (hs : Sim lower s h) (cache : List Rec) (now : Int) (qu : Bool)
+    (tys : List String) :
+    (∀ x ∈ (serviceQuestionsG lower cache now qu tys s).1, ∃ ty ∈ tys,
+        x.q = { name := ty, type := 12, class_ := 1, unique := qu } ∧ x.known = knownAnswers lower cache ty 12 1 now ∧
+        (now ≠ 0 → x.wire = x.known.map (fun r => (r, ((r.created + 1000 * r.ttl - now) / 1000).toNat)))) ∧
+    DistinctKeys lower (serviceQuestionsG lower cache now qu tys s).1 ∧
+    (∀ o ∈ (serviceQueryG lower cache now qu tys s).1, ∃ y ∈ (serviceQuestionsG lower cache now qu tys s).1, y.q.beq lower o.q = true) ∧
+    Sim lower (serviceQuestionsG lower cache now qu tys s).2 (h.seeAll lower (sightingsOf now (serviceQueryG lower cache now qu tys s).1)) := by
+  obtain ⟨e1, e2⟩ := serviceQuestionsG_sim lower cache now qu tys hs
+  obtain ⟨e3, _⟩ := serviceQueryG_sim lower cache now qu tys hs
+  obtain ⟨h1, h2, h3, h4⟩ := C13_service_query lower cache h now qu tys
+  rw [e1, e3]
+  rw [h4] at e2
+  exact ⟨h1, h2, h3, e2⟩
+
+theorem C13_request_query_source {s : QuestionHistory} {h : History} (hs : Sim lower s h) (cache : List Rec) (now : Int) (qu : Bool)
+    (name server : String) :
+    (∀ o ∈ (requestQueryG lower cache s now qu name server).1,
+        ((o.q.name = name ∧ (o.q.type = 33 ∨ o.q.type = 16)) ∨ (o.q.name = server ∧ (o.q.type = 1 ∨ o.q.type = 28))) ∧
+        o.q.class_ = 1 ∧ o.q.unique = qu ∧ o.known = knownAnswers lower cache o.q.name o.q.type 1 now ∧
+        (now ≠ 0 → o.wire = o.known.map (fun r => (r, ((r.created + 1000 * r.ttl - now) / 1000).toNat)))) ∧
+    Sim lower (requestQueryG lower cache s now qu name server).2
+      (h.seeAll lower (sightingsOf now (requestQueryG lower cache s now qu name server).1)) := by
+  obtain ⟨e1, e2⟩ := requestQueryG_sim lower hs cache now qu name server
+  obtain ⟨h1, h2⟩ := C13_request_query lower cache h now qu name server
+  rw [e1]
+  rw [h2] at e2
+  exact ⟨h1, e2⟩
+
+end Tie
+
 end Zc
